@@ -179,9 +179,14 @@ func (ctxt *CredentialHelperContext) GetCredentialHelper(helper CredentialHelper
 		}
 	}
 
-	ctxt.commandCredHelper.protectProtocol = ctxt.urlConfig.Bool("credential", rawurl, "protectProtocol", true)
+	// The setting belongs to this URL, and the wrapper may be used after
+	// other URLs have been looked up (a request that was redirected is
+	// approved or rejected once the redirected one has been served), so it
+	// gets a helper of its own.
+	commandCredHelper := *ctxt.commandCredHelper
+	commandCredHelper.protectProtocol = ctxt.urlConfig.Bool("credential", rawurl, "protectProtocol", true)
 
-	return CredentialHelperWrapper{CredentialHelper: NewCredentialHelpers(append(helpers, ctxt.commandCredHelper)), Input: input, Url: u}
+	return CredentialHelperWrapper{CredentialHelper: NewCredentialHelpers(append(helpers, &commandCredHelper)), Input: input, Url: u}
 }
 
 // AskPassCredentialHelper implements the CredentialHelper type for GIT_ASKPASS
